@@ -562,8 +562,9 @@ def _contains_outer_join(t):
 
 
 def has_exists_over_outer_join(t):
-    """EXISTS / NOT EXISTS (semi / anti joins) whose subquery contains a LEFT/RIGHT join hang the engine
-    (known finding F38, probed by C04); such queries are not generated."""
+    """EXISTS / NOT EXISTS (semi / anti joins) whose subquery contains a LEFT/RIGHT join: these hung the engine (F38, the LIMIT 1
+    of the EXISTS cut the probing partition off before the join's drain barrier) until the fix; kept as a classifier for the
+    generator statistics."""
     if isinstance(t, tuple):
         if t and t[0] == "join" and t[1] in ("semi", "anti") and _contains_outer_join(t[4]):
             return True
@@ -576,4 +577,5 @@ def has_exists_over_outer_join(t):
 
 
 def excluded(t):
-    return has_or_absorption(t) or has_exists_over_outer_join(t)
+    # (EXISTS over an outer join used to be excluded as well: it hung the engine until the fix of F38, see known_findings.txt)
+    return has_or_absorption(t)
